@@ -192,8 +192,9 @@ func c02NSFile(p string) []byte {
 }
 
 // A folder upload of two files on one transfer connection gives the same two files whether the client's bytes
-// arrive all at once (each read returns everything available, so reads run past item boundaries), one byte per read,
-// or in pieces of 7 or 50 bytes (cuts inside headers, and reads that straddle the end of the first file).
+// arrive all at once (each read returns everything available, so reads run past item boundaries), in 7- or 50-byte
+// segments, or with segment boundaries placed inside the first header, inside the second header and around the end of
+// the first file.
 func VH_C02_FolderUploadSegmentation_sym() {
 	vUnroll(200)
 	d1 := vBytesN("data_first", 2)
@@ -206,9 +207,24 @@ func VH_C02_FolderUploadSegmentation_sym() {
 	s2 := c02UploadStream([]byte("g.bin"), d2)
 	in = append(in, refU32(len(s2))...)
 	in = append(in, s2...)
-	piece := []int{0, 1, 7, 50}[vChoice("piece_size", 4)]
+	hdr2 := len(c02ItemHeader(false, "f.bin")) + 4 + len(s1) // where the second item's header starts
+	rd := &vChunkReader{data: in, whole: true}
+	switch vChoice("delivery", 7) {
+	case 1:
+		rd.each = 7
+	case 2:
+		rd.each = 50
+	case 3:
+		rd.bounds = []int{3} // a segment ends inside the first item header
+	case 4:
+		rd.bounds = []int{hdr2 + 1} // ... inside the second item header
+	case 5:
+		rd.bounds = []int{hdr2 + 5, hdr2 + 8}
+	case 6:
+		rd.bounds = []int{hdr2 - 1, hdr2 + 2} // the last byte of the first file travels with the start of the next header
+	}
 	vNSNames, vNSData, vNSWrites, vNSDirs = []string{"/r/up"}, [][]byte{nil}, 0, nil
-	c := &vRW{r: &vChunkReader{data: in, whole: true, each: piece}}
+	c := &vRW{r: rd}
 	ft := &FileTransfer{bytesSentCounter: &WriteCounter{}, FolderItemCount: []byte{0, 2}}
 	err := UploadFolderHandler(c, "/r/up", ft, &vNSStore{}, vLogger(), false)
 	vAssert("folder_upload_ok_for_every_segmentation", err == nil)
